@@ -186,6 +186,7 @@ def monitor(scn, sobj, rep, sf, ck):
     rx = RxBuf(cfg["mtu"], cfg["rxseed"])
     prev = 0
     maxlive = 0
+    kinds_seen = set()          # request kinds handled since the last topology Reset
     for idx, inp in enumerate(scn.inputs):
         if idx >= len(frames) or inp.led is None:
             break
@@ -193,17 +194,22 @@ def monitor(scn, sobj, rep, sf, ck):
         tos, op = buf[15], buf[17]
         live = inp.led[0]
         delta = live - prev
+        kind = (tos, op, buf[32] if op == W.OP_QLT else 0)
         allowed = 0
         if idx == 0:
             allowed += 1                               # the constant per-interface record
         if tos == 0 and op in (W.OP_PROBE, W.OP_TRAIN):
             allowed += 1                               # one observation
-        if tos in (0, 1) and op == W.OP_QLT and buf[32] == 0x0E:
-            allowed += 1                               # icon cached for the session
+        elif kind not in kinds_seen:
+            allowed += 1                               # a per-session cache entry for this kind of request (e.g. the icon)
         if delta > allowed:
             rep.violation("C19:buffer-not-released-after-frame:%s" % W.OPNAMES.get(op, "other"),
-                          "scenario %s input %d (tos=%d opcode=%d): live allocations %d -> %d (at most +%d is retained state)"
+                          "scenario %s input %d (tos=%d opcode=%d): live allocations %d -> %d; at most +%d can be retained state "
+                          "(one observation per Probe/Train, one cache entry the first time a kind of request is served in a session)"
                           % (scn.sid, idx + 1, tos, op, prev, live, allowed), replay=None)
+        kinds_seen.add(kind)
+        if tos == 0 and op == W.OP_RESET:
+            kinds_seen.clear()
         prev = live
         maxlive = max(maxlive, live)
     rep.count("mixed_frames", min(len(frames), len(scn.inputs)))
